@@ -7,7 +7,7 @@
 (* judges it with the operators of the specification family; see RTJudge   *)
 (* for how verdicts are collected.                                         *)
 (***************************************************************************)
-EXTENDS RTTransform, RTPlan, RTTips, RTSelect, RTJudge
+EXTENDS RTTransform, RTPlan, RTTips, RTSelect, RTLabware, RTJudge
 
 Data  == JsonDeserialize(IOEnv.TRACE_FILE)
 Calls == Data.calls
@@ -142,6 +142,25 @@ JudgeRand(c) ==
   }
 
 (***************************************************************************)
+(* C20: constructors                                                       *)
+(***************************************************************************)
+JudgeCtor(c) ==
+  LET valid == ValidSpec(c)
+      g == CtorGeom(c)
+      o == c.obs
+      \* the default naming rule is stated for multi-row plates, troughs and single-well labware
+      ruled == (g.vrows > 0 /\ c.kind = "trough") \/ (g.vrows = 0 /\ (g.rows > 1 \/ (g.rows = 1 /\ g.cols = 1)))
+      allnamed == \A k \in 1..NReal(g) : InitFlat(c, g)[k] > 0 => GivenNames(c, g)[k].h
+  IN {
+    Cl("C20.consistent", c.out = "ok", Consistent(c, o)),
+    Cl("C20.accept", valid, c.out = "ok"),
+    Cl("C20.layout", valid /\ c.out = "ok", o.vol = InitFlat(c, g) /\ o.minv = c.minv.v /\ o.maxv = c.maxv.v),
+    Cl("C20.naming", valid /\ c.out = "ok" /\ (ruled \/ allnamed),
+       [k \in 1..NReal(g) |-> Range(o.comp[k])] = InitComp(c.name, g, InitFlat(c, g), GivenNames(c, g))),
+    Cl("C20.reject", ~valid, c.out = "value")
+  }
+
+(***************************************************************************)
 JudgeCall(c) ==
   CASE c.fn = "geom" -> JudgeGeom(c)
     [] c.fn = "tw"   -> JudgeTW(c)
@@ -153,6 +172,7 @@ JudgeCall(c) ==
     [] c.fn = "shift" -> JudgeShift(c)
     [] c.fn = "rot" -> JudgeRot(c)
     [] c.fn = "rand" -> JudgeRand(c)
+    [] c.fn = "ctor" -> JudgeCtor(c)
     [] OTHER -> {Cl("machinery.unknown_fn", TRUE, FALSE)}
 
 Init == i = 1 /\ InitRegisters
